@@ -126,8 +126,10 @@ def check_table(rep, spec):
     df = pd.DataFrame({"id": np.arange(n, dtype=np.int32), "pid": np.array(pid, dtype=np.int32)})
     call("is_single_root", "is-single-root", lambda: swc_utils.is_single_root(df), naive_connected(pid), variant="cyclic" if cyclic else "acyclic")
     call("has_cyclic", "has-cyclic", lambda: swc_utils.has_cyclic(topo), cyclic)
-    if not cyclic and pid[0] == -1 and pid.count(-1) == 1:
-        call("is_sorted", "is-sorted", lambda: swc_utils.is_sorted(topo), all(pid[i] < i for i in range(1, n)))
+    # the property quantifies over ANY table, forests and tables with cycles included: parents precede children iff every row
+    # that has a parent carries a larger id than that parent (ids = positions here)
+    call("is_sorted", "is-sorted", lambda: swc_utils.is_sorted(topo), all(p == -1 or p < i for i, p in enumerate(pid)),
+         variant="single-rooted-acyclic" if (not cyclic and pid[0] == -1 and pid.count(-1) == 1) else ("cyclic" if cyclic else "forest"))
     for ex in (True, False):
         want = naive_bifurcate(pid, ex)
         try:
@@ -352,7 +354,7 @@ def run(ctx):
             base = rng.choice([0, 1, 7, 100])
             check_read(rep, mk_read_spec(pid2, base, fix, rot=rng.randrange(3)))
             ctx.case("read-forest-random", dict(pid=pid2, base=base, fix=str(fix)))
-    ctx.rule(f"every function [0,n) -> {{-1}} u [0,n), n <= {nmax}, as a parent table (is_sorted only on acyclic tables whose single root is node 0) plus random tables of up to 9 nodes; "
+    ctx.rule(f"every function [0,n) -> {{-1}} u [0,n), n <= {nmax}, as a parent table (every checker on every table, forests and cyclic tables included) plus random tables of up to 9 nodes; "
              f"every script of union/find/is_same_set operations for (elements, length) in {plan} with the whole partition compared after every operation, plus random scripts of 5-12 "
              f"operations on 3-6 elements; every sorted forest with <= {fmax} nodes and >= 2 roots x id base (0, 1, 7) x fix_roots (False, 'somas', 'nearest') plus random unsorted "
              "forests. Non-trivial = table with >= 2 nodes / script containing a union of two different elements.", exhaustive=False)
